@@ -3,8 +3,8 @@ from checks_path import *  # noqa
 from seq_common import run_seq, replay_seq
 
 PROPERTY = 'C04'
-GEN = ['LogicVerify']
-PROPS = ['SalsaVerif.Props.C04', 'SalsaVerif.Props.GenLogicVerify', 'SalsaVerif.Props.C04Core3']
+GEN = ['LogicVerify', 'LogicRuntime']
+PROPS = ['SalsaVerif.Props.C04', 'SalsaVerif.Props.GenLogicVerify', 'SalsaVerif.Props.C04Core3', 'SalsaVerif.Props.GenLogicRuntime']
 EXPLANATION = ('Theorems about the Lean engine model `Core3` (Core + no_eq + untracked cells + the lru kind): a memo whose last execution '
                'reported an untracked read and that is not yet verified in the current revision is re-executed (`exec q` is the FIRST event) '
                'by the first fetch or maybe_changed_after that reaches it — for ANY state and program (`c04_reexec_fetch`, `c04_reexec_mca`); '
